@@ -60,6 +60,53 @@ theorem C14_delay_echoes (C : FxChain ℝ φ) (g : Frame ℝ → Frame ℝ) (hg0
       simp [List.getElem?_replicate]; omega
     simp [this]
 
+/-- **any feedback effects (stateful ones included): the line recirculates.**  Stagnant parameters, a good
+    chain, a line holding `W` (`L = |W| ≥ 1` frames), one line length of silence as input.  Then the output is
+    the wet/dry blend of `T` with silence and the line afterwards holds exactly `T`, where `T` is `W` passed once
+    through the feedback effects (from their current state, which advances accordingly) and once through
+    the feedback gain.  Iterating: what was written into the line comes back after exactly `L` frames, shaped
+    and attenuated once more on every trip. -/
+theorem C14_delay_recirculates (C : FxChain ℝ φ) (d : Delay ℝ φ) (dt : ℝ) (info : Info ℝ) (hC : C.Good dt info)
+    (hfb : d.feedback.stagnant = true) (hmx : d.mix.stagnant = true) (hL : 1 ≤ d.buffer.length)
+    (ht : d.buffer.length ≤ d.tempLen) :
+    ∃ d', d.process C (List.replicate d.buffer.length Frame.zero) dt info
+        = .ok (d', ((C.process d.fx d.buffer dt info).2.map (fun f => f.scale (asAmplitude d.feedback.raw))).map
+                    (fun t => blend t Frame.zero (clamp d.mix.raw 0 1)))
+      ∧ d'.buffer = (C.process d.fx d.buffer dt info).2.map (fun f => f.scale (asAmplitude d.feedback.raw))
+      ∧ d'.fx = (C.process d.fx d.buffer dt info).1 := by
+  have hp := Delay.process_settled C d (List.replicate d.buffer.length Frame.zero) dt info hC hfb hmx hL
+    (by rw [List.length_replicate, Nat.min_self]; exact ht)
+  have hne : List.replicate d.buffer.length (Frame.zero : Frame ℝ) ≠ [] := by
+    intro h0
+    have h1 := congrArg List.length h0
+    rw [List.length_replicate, List.length_nil] at h1
+    omega
+  have hch := Delay.chunkC_eq_framesC C (asAmplitude d.feedback.raw) (clamp d.mix.raw 0 1) dt info hC
+    (d.buffer, d.fx) (List.replicate d.buffer.length Frame.zero) (by simp) hne
+  have hTlen : ((C.process d.fx d.buffer dt info).2.map (fun f => f.scale (asAmplitude d.feedback.raw))).length
+      = d.buffer.length := by simp [hC.len]
+  have hadd : ∀ (T : List (Frame ℝ)) (n : ℕ), T.length = n →
+      List.zipWith Frame.add (List.replicate n (Frame.zero : Frame ℝ)) T = T := by
+    intro T
+    induction T with
+    | nil => intro n hn; subst hn; rfl
+    | cons t T ih => intro n hn; subst hn; simp [List.replicate_succ, Frame.zero_add, ih T.length rfl]
+  have hbl : ∀ (T : List (Frame ℝ)) (n : ℕ) (m : ℝ), T.length = n →
+      List.zipWith (fun t x => blend t x m) T (List.replicate n (Frame.zero : Frame ℝ))
+        = T.map (fun t => blend t Frame.zero m) := by
+    intro T
+    induction T with
+    | nil => intro n m hn; subst hn; rfl
+    | cons t T ih => intro n m hn; subst hn; simp [List.replicate_succ, ih T.length m rfl]
+  refine ⟨Delay.after C d (List.replicate d.buffer.length Frame.zero) dt info, ?_, ?_, ?_⟩
+  · rw [hp]
+    simp only [Delay.perFrame, ← hch, Delay.chunkC, List.length_replicate, List.take_length]
+    rw [hbl _ _ _ hTlen]
+  · simp only [Delay.after, Delay.perFrame, ← hch, Delay.chunkC, List.length_replicate, List.take_length,
+      List.drop_length, List.nil_append]
+    exact hadd _ _ hTlen
+  · simp only [Delay.after, Delay.perFrame, ← hch, Delay.chunkC, List.length_replicate, List.take_length]
+
 /-- with no feedback effects (or pure gains `G`) echo `k` is the impulse scaled by `(G·a)ᵏ` -/
 theorem C14_delay_echo_amplitude (G a : ℝ) (x0 : Frame ℝ) (k : ℕ) :
     (fun f : Frame ℝ => (f.scale G).scale a)^[k] x0 = x0.scale ((G * a) ^ k) := by
